@@ -18,9 +18,11 @@ start_response)` is called with generated environments.  Per request the predica
 under test).  Query strings are WSGI "native strings" (code points <= U+00FF); arbitrary Unicode enters
 percent-encoded.
 
-Root causes are labelled by `site`; for the expected class "a to_*/get_* function returned a non-string
-and html.escape() raised AttributeError" every distinct (module, function, type) is reported once, with
-the first query that exposed it.
+Root causes are labelled by a STABLE `site` (innermost frame inside /repo/stdnum: `file:function:source line`);
+one case per site is reported, with the shortest query that exposed it.  When the application fails, every module
+whose is_valid()/format()/compact() raises on that number is reported as its own root cause (the application
+stops at the first).  Conversions of any type are expected to be shown as html.escape(str(value)) (upstream
+commit 6b1a6e2).
 """
 import html
 import importlib.machinery
@@ -103,25 +105,35 @@ def process_description(description):
 
 
 def site_of(exc):
-    """innermost frame inside the repository"""
+    """STABLE root-cause label: innermost frame inside /repo/stdnum (else inside the repository, else the innermost
+    frame) as `<relative file>:<function>:<stripped source line>` — independent of the input that triggered it"""
     frames = traceback.extract_tb(exc.__traceback__)
-    for fr in reversed(frames):
-        fn = fr.filename
-        if fn.startswith(common.REPO + os.sep):
-            return '%s:%s:%s' % (os.path.relpath(fn, common.REPO), fr.name, (fr.line or '').strip())
+    for root in (os.path.join(common.REPO, 'stdnum') + os.sep, common.REPO + os.sep):
+        for fr in reversed(frames):
+            if fr.filename.startswith(root):
+                return '%s:%s:%s' % (os.path.relpath(fr.filename, common.REPO), fr.name, (fr.line or '').strip())
     fr = frames[-1]
     return '%s:%s:%s' % (os.path.basename(fr.filename), fr.name, (fr.line or '').strip())
 
 
 def reference(query):
-    """(number, accepted modules, non-string conversions, expected items | None)"""
+    """Independent evaluation of what the page must show.
+    -> (number, accepted modules, module_errors, expected items | None)
+    module_errors = [(site, text)]: every module whose is_valid()/format()/compact() raises on this number — each of
+    them makes the application fail (the application stops at the first one; all are root causes)."""
     from stdnum.util import get_module_description, get_module_name
     params = urllib.parse.parse_qs(query)
     if 'number' not in params:
         return '', [], [], []
     number = params['number'][0]
-    accepted = [m for m in modules() if m.is_valid(number)]
-    nonstr, items = [], []
+    accepted, errors = [], []
+    for m in modules():
+        try:
+            if m.is_valid(number):
+                accepted.append(m)
+        except Exception as e:   # noqa: B902
+            errors.append((site_of(e), '%s.is_valid raises %s: %s' % (m.__name__, type(e).__name__, str(e)[:60])))
+    items = []
     for m in accepted:
         compactfn = getattr(m, 'compact', lambda x: x)
         formatfn = getattr(m, 'format', compactfn)
@@ -136,21 +148,25 @@ def reference(query):
                 v = v.strftime('%Y-%m-%d')
             elif isinstance(v, str) and v == number:
                 continue
-            if not isinstance(v, str):
-                nonstr.append((m.__name__, fname, type(v).__name__))
-                continue
-            lines.append((prop, v))
-        if items is not None:
+            lines.append((prop, str(v)))      # the page shows str(value), whatever its type
+        try:
             shown = formatfn(number)
-            if not isinstance(shown, str):
-                nonstr.append((m.__name__, getattr(formatfn, '__name__', 'format'), type(shown).__name__))
-                items = None
-                continue
+            compactfn(number)
+        except Exception as e:   # noqa: B902
+            errors.append((site_of(e), '%s.format/compact raises %s on a number it accepts: %s' % (m.__name__, type(e).__name__, str(e)[:60])))
+            items = None
+            continue
+        if not isinstance(shown, str):
+            errors.append(('%s:format:returns %s' % (os.path.relpath(m.__file__, common.REPO), type(shown).__name__),
+                           '%s.format returns a %s' % (m.__name__, type(shown).__name__)))
+            items = None
+            continue
+        if items is not None:
             d = process_description(get_module_description(m))
             for prop, v in dict(lines).items():
                 d += '\n<br/><b><i>%s</i></b>: %s' % (html.escape(prop), html.escape(v))
             items.append('<li>%s: <b>%s</b><p>%s</p></li>' % (html.escape(shown), html.escape(get_module_name(m)), d))
-    return number, accepted, nonstr, items
+    return number, accepted, errors, items
 
 
 _TEMPLATE = None
@@ -172,35 +188,32 @@ def call(query, ajax):
     return st.get('status'), dict(st.get('headers') or []), b''.join(body)
 
 
-_last_accepted = None   # number of accepting modules seen by the last evaluate() (None: is_valid raised)
+_last_accepted = None   # number of accepting modules seen by the last evaluate() (None: nothing could be computed)
 
 
 def evaluate(query, ajax):
     """None if the request satisfies the predicate, else a list of violation dicts
     {observed, expected, site, relation}"""
     global _last_accepted
-    _last_accepted = None
-    try:
-        number, accepted, nonstr, items = reference(query)
-        _last_accepted = len(accepted)
-    except Exception as e:   # noqa: B902
-        # is_valid()/format() itself raised on this text: the application cannot answer either
-        number, accepted, nonstr, items = None, None, [], None
-        ref_exc = e
+    number, accepted, errors, items = reference(query)
+    _last_accepted = None if errors else len(accepted)
     try:
         status, headers, body = call(query, ajax)
     except Exception as e:   # noqa: B902
         observed = 'raises %s: %s' % (type(e).__name__, str(e)[:80])
-        if isinstance(e, AttributeError) and nonstr and not ajax:
-            return [{
-                'observed': 'raises AttributeError (html.escape() on the %s returned by %s.%s)' % (t[2], t[0], t[1]), 'expected': 'status 200 with the conversion shown as text',
-                'relation': 'no server error',
-                'site': 'online_check/stdnum.wsgi:format:html.escape(conversion) <- %s.%s returns %s' % t,
-                'getter': list(t)} for t in sorted(set(nonstr))]
+        if errors:
+            # one case per root cause (the application stopped at the first of them)
+            seen, out = set(), []
+            for site, text in errors:
+                if site not in seen:
+                    seen.add(site)
+                    out.append({'observed': 'raises %s (%s)' % (type(e).__name__, text), 'expected': 'status 200',
+                                'relation': 'no server error', 'site': site})
+            return out
         return [{'observed': observed, 'expected': 'status 200', 'relation': 'no server error', 'site': site_of(e)}]
-    if number is None:
-        return [{'observed': 'answered although is_valid/format raised %s here' % type(ref_exc).__name__,
-                 'expected': 'consistent behaviour', 'relation': 'reference', 'site': site_of(ref_exc)}]
+    if errors:
+        return [{'observed': 'answered although %s' % errors[0][1], 'expected': 'consistent behaviour', 'relation': 'reference',
+                 'site': errors[0][0]}]
     out = []
     if status != '200 OK':
         out.append({'observed': 'status %r' % (status,), 'expected': "'200 OK'", 'relation': 'status', 'site': 'online_check/stdnum.wsgi:application:status'})
@@ -226,7 +239,7 @@ def evaluate(query, ajax):
         if MARKER in number and MARKER in text:
             out.append({'observed': 'raw marker in page', 'expected': 'escaped only', 'relation': 'escaped',
                         'site': 'online_check/stdnum.wsgi:application:html.escape'})
-        if items is not None and not nonstr:
+        if items is not None:
             expected = template() % dict(value=html.escape(number, True), results='\n'.join(items))
             if text != expected:
                 k = next((i for i, (a, b) in enumerate(zip(text, expected)) if a != b), min(len(text), len(expected)))
@@ -246,14 +259,14 @@ def gen_queries(rng, tier):
     """[(generator label, query string)] — deterministic for the seed"""
     corpus = common.corpus()
     out = []
-    per_mod = 12 if tier == 'quick' else 80
+    per_mod = 8 if tier == 'quick' else 60
     mods = sorted(corpus)
     for name in mods:
         valid = corpus[name]['valid']
         picks = valid if len(valid) <= per_mod else rng.sample(valid, per_mod)
         for v in picks:
             out.append(('valid:' + name, 'number=' + q(v)))
-    n_mut = 600 if tier == 'quick' else 6000
+    n_mut = 400 if tier == 'quick' else 4500
     allvalid = [(name, v) for name in mods for v in corpus[name]['valid']]
     for _ in range(n_mut):
         name, v = rng.choice(allvalid)
@@ -277,7 +290,7 @@ def gen_queries(rng, tier):
         else:
             out.append(('valid-raw', 'number=' + v.replace('%', '%25').replace('&', '%26').replace('+', '%2B').replace('#', '%23').replace(';', '%3B')
                         .encode('utf-8').decode('latin-1')))
-    n_rand = 300 if tier == 'quick' else 3000
+    n_rand = 240 if tier == 'quick' else 2400
     for _ in range(n_rand):
         k = rng.randrange(10)
         if k == 0:
@@ -299,7 +312,7 @@ def gen_queries(rng, tier):
             out.append(('empty', rng.choice(['number=', 'number=&x=1', 'number=&number=', 'number=&number=1'])))
         elif k == 6:
             unit = rng.choice(['1', 'A', '%3C', '%E2%80%93', '9 '])
-            n = rng.choice([1000, 5000, 70000] if unit in ('1', 'A') else [1000, 5000])
+            n = rng.choice([1000, 4400, 5000, 70000] if unit in ('1', 'A') else [1000, 5000])
             out.append(('long', 'number=' + unit * n))
         elif k == 7:
             out.append(('digits', 'number=' + ''.join(rng.choice('0123456789') for _ in range(rng.randint(1, 20)))))
@@ -348,17 +361,10 @@ def _worker(chunk):
 
 
 def make_case(query, ajax, v):
-    case = {
+    return {
         'module': 'online_check.stdnum_wsgi', 'function': 'application',
         'args': [common.describe(query), common.describe(ajax)],
         'observed': v['observed'], 'expected': v['expected'], 'site': v['site'], 'relation': v['relation']}
-    if 'getter' in v:
-        case['getter'] = v['getter']
-        try:
-            case['number'] = urllib.parse.parse_qs(query)['number'][0]
-        except Exception:   # noqa: B902
-            pass
-    return case
 
 
 def search(seed, tier):
@@ -379,7 +385,7 @@ def search(seed, tier):
     chunks = [work[i:i + size] for i in range(0, len(work), size)]
     with multiprocessing.get_context('fork').Pool(nproc) as pool:
         results = pool.map(_worker, chunks)
-    failing, seen_sites = [], {}
+    seen_sites = {}
     distribution = {'generator': {}, 'mode': {'html': 0, 'ajax': 0}, 'outcome': {'ok': 0, 'fail': 0}, 'sites': {}}
     distinct, nontrivial = set(), set()
     samples = []
@@ -398,12 +404,11 @@ def search(seed, tier):
                                 'outcome': 'fails: ' + bad[0]['observed'] if bad else 'satisfies the predicate'})
             for v in bad or []:
                 distribution['sites'][v['site']] = distribution['sites'].get(v['site'], 0) + 1
-                key = (v['site'], ajax) if 'getter' not in v else (v['site'],)
-                if key in seen_sites:
-                    continue
-                seen_sites[key] = True
-                failing.append(make_case(query, ajax, v))
-    failing.sort(key=lambda c: (c['site'], json.dumps(c['args'])))
+                old = seen_sites.get(v['site'])
+                if old is None or (len(query), query, ajax) < old[0]:
+                    seen_sites[v['site']] = ((len(query), query, ajax), make_case(query, ajax, v))
+    failing = [c for _k, c in seen_sites.values()]     # one case per root cause: the shortest witness query
+    failing.sort(key=lambda c: c['site'])
     return {
         'cases': sum(len(r) for r in results),
         'distinct_nontrivial': len(nontrivial),
@@ -415,16 +420,26 @@ def search(seed, tier):
 
 
 def replay(case):
-    query = common.rebuild(case['args'][0])
-    ajax = common.rebuild(case['args'][1])
-    wsgi()._template = None
-    bad = evaluate(query, ajax)
-    if not bad:
-        return None
-    for v in bad:
-        if v['site'] == case.get('site'):
-            return make_case(query, ajax, v)
-    return make_case(query, ajax, bad[0])
+    """Re-run one case on the current tree.  Needs only case['args'] (query string and, optionally, the ajax flag);
+    with case['site'] present the case counts as still failing only if that root cause still shows up
+    (so a known-finding entry {property, module, function, site, args} can be replayed as is)."""
+    args = case.get('args') or []
+    if not args:
+        return case
+    query = common.rebuild(args[0]) if isinstance(args[0], dict) else args[0]
+    modes = [common.rebuild(args[1]) if isinstance(args[1], dict) else bool(args[1])] if len(args) > 1 else [False, True]
+    first = None
+    for ajax in modes:
+        wsgi()._template = None
+        bad = evaluate(query, ajax)
+        for v in bad or []:
+            c = dict(make_case(query, ajax, v), **{k: case[k] for k in ('property',) if k in case})
+            if case.get('site') is None or v['site'] == case['site']:
+                return c
+            first = first or c
+    if case.get('site') is None:
+        return first
+    return None
 
 
 if __name__ == '__main__':
